@@ -196,6 +196,17 @@ CHECKS = {
         "quick": {"rapid_checks": 12, "timeout": 900},
         "thorough": {"rapid_checks": 60, "timeout": 3000, "shards": 8},
     },
+    "C14": {
+        "pkg": "./checks/c14",
+        "race": True,
+        "level": "exploration",
+        "assumptions": [
+            "the Go scheduler is not controlled: plans vary goroutine counts, writer pacing (yield points, chunking) and GOMAXPROCS, and the race detector watches every execution; no claim about all interleavings",
+            "components are the compiled fixtures of harness/fx (in-process part) and tgen programs without tick() (development-mode part)",
+        ],
+        "quick": {"timeout": 900, "runs": [{"run": "^TestPropConcurrent$", "rapid_checks": 400}, {"run": "^TestPropDevModeConcurrent$", "rapid_checks": 6}]},
+        "thorough": {"timeout": 3400, "shards": 8, "runs": [{"run": "^TestPropConcurrent$", "rapid_checks": 6000}, {"run": "^TestPropDevModeConcurrent$", "rapid_checks": 40}]},
+    },
     "C15": {
         "pkg": "./checks/c15",
         "race": True,
@@ -207,5 +218,16 @@ CHECKS = {
         ],
         "quick": {"rapid_checks": 300, "timeout": 900},
         "thorough": {"rapid_checks": 3000, "timeout": 3000, "shards": 8},
+    },
+    "C16": {
+        "pkg": "./checks/c16",
+        "level": "exploration",
+        "assumptions": [
+            "the development text files and _templ.go files are produced by generatecmd.FSEventHandler in development mode with explicit, advancing modification times - the code path of `templ generate --watch` without the file-system watcher itself",
+            "for the classification clause 'the compiled program reading the new text file renders the edited template' is decided by token-stream equality of the last compiled Go and the new Go with only WriteString literals and error positions masked (by construction of development mode that program is then the new one)",
+            "a version that templ generate rejects ends an edit sequence",
+        ],
+        "quick": {"timeout": 900, "runs": [{"run": "^TestPropDevMode$", "rapid_checks": 6}, {"run": "^TestPropEdits$", "rapid_checks": 1200}]},
+        "thorough": {"timeout": 3400, "shards": 12, "runs": [{"run": "^TestPropDevMode$", "rapid_checks": 30}, {"run": "^TestPropEdits$", "rapid_checks": 20000}]},
     },
 }
